@@ -334,7 +334,7 @@ func checkC06(c *Ctx, r *Report) {
 					groups++
 				}
 			}
-			key := rel + ":" + st + ":key-space"
+			key := rel + ":transaction-store(" + c.stableStoreKey(st) + "):key-space"
 			if groups > 1 {
 				r.bad("R1", key, "-", fmt.Sprintf("one uint16 key space is shared by exchanges whose IDs are chosen independently: locally chosen %v, chosen by the MQTT-SN peer %v, chosen by the broker %v", local, peerA, peerB))
 			} else {
@@ -353,7 +353,7 @@ func checkC06(c *Ctx, r *Report) {
 				}
 				sort.Strings(cls)
 				gs := append(append([]Guard{}, leaf.Gs...), guardsOf(s.Call.Block())...)
-				key := fmt.Sprintf("%s:Store[key<-%s]", fnKey(s.Fn), strings.Join(cls, "|"))
+				key := fmt.Sprintf("%s:Store[%s][key<-%s]", rel, strings.Join(c.concreteTypesOf(s.Call.Common().Args[2]), "|"), strings.Join(cls, "|"))
 				if occupancyChecked(gs, leaf.V) {
 					r.ok("R4", key, c.instrPos(s.Call), "stored only after a failed Get of the same key")
 				} else {
@@ -382,7 +382,10 @@ func checkC06(c *Ctx, r *Report) {
 					ctor = ctor.Parent()
 				}
 				r.fn(ctor)
-				key := fnKey(ctor) + ":unconditional-delete"
+				key := rel + ":completion-callback-of(" + typeStr(ctor.Signature.Results().At(0).Type()) + "):unconditional-delete"
+				if ctor.Signature.Results().Len() != 1 {
+					key = fnKey(ctor) + ":unconditional-delete"
+				}
 				// conditional on the stored value being this transaction?
 				cond := false
 				for _, g := range guardsOf(i.Block()) {
@@ -513,4 +516,13 @@ func (c *Ctx) checkStoredExchangeCompletable(r *Report, rule string) {
 			r.bad(rule, key, pos, "a transaction is stored under the request's message ID, but the broker's reply ("+rq.reply+") is relayed without consulting the transaction store: the stored transaction never completes, occupies the ID until its retries run out and replaces an exchange the broker started under the same ID")
 		}
 	}
+}
+
+// stableStoreKey: "pkg.Type.field" of a struct field holding a transaction store -> rename-stable form.
+func (c *Ctx) stableStoreKey(st string) string {
+	i := strings.LastIndex(st, ".")
+	if i < 0 {
+		return st
+	}
+	return c.stableFieldKey(st[:i], st[i+1:])
 }
